@@ -461,3 +461,178 @@ func emittedFieldName(c *Ctx, cl *ssa.Call) (string, bool) {
 	return "", false
 }
 
+
+// ---- C09.8: every CRYPTO frame of a planned datagram is registered for retransmission ----
+
+func c09PlannedRegistered(c *Ctx) {
+	const R = "C09.8"
+	f := c.fn("", "uPacketPacker", "plannedInitialPayload")
+	var asserts []*ssa.TypeAssert
+	eachInstr(f, func(in ssa.Instruction) {
+		if ta, ok := in.(*ssa.TypeAssert); ok && ta.CommaOk {
+			if n := namedOf(ta.AssertedType); n != nil && n.Obj().Name() == "CRYPTO" {
+				asserts = append(asserts, ta)
+			}
+		}
+	})
+	c.Floor(R, "CRYPTO type assertions in plannedInitialPayload", len(asserts), 1)
+	handlerOf := c.obj("", "retransmissionQueue", "AckHandler")
+	c.Floor(R, "AckHandler(EncryptionInitial) lookups", countInstr(f, CallsTo(handlerOf)), 1)
+	for _, ta := range asserts {
+		// the block entered when the assertion succeeded
+		var okBlock *ssa.BasicBlock
+		for _, b := range f.Blocks {
+			ifi, isIf := b.Instrs[len(b.Instrs)-1].(*ssa.If)
+			if !isIf {
+				continue
+			}
+			if ex, isEx := ifi.Cond.(*ssa.Extract); isEx && ex.Tuple == ssa.Value(ta) && ex.Index == 1 {
+				okBlock = b.Succs[0]
+			}
+		}
+		if okBlock == nil {
+			c.Bad(R, "pair:every CRYPTO frame of a planned datagram is registered", c.P.InstrPos(ta), "comma-ok branch not found")
+			continue
+		}
+		isAppend := func(in ssa.Instruction) bool {
+			cl, ok := in.(*ssa.Call)
+			if !ok || builtinName(&cl.Call) != "append" {
+				return false
+			}
+			// elements are ackhandler.Frame values
+			if sl, ok := cl.Type().Underlying().(*types.Slice); ok {
+				if n := namedOf(sl.Elem()); n != nil && n.Obj().Name() == "Frame" {
+					return true
+				}
+			}
+			return false
+		}
+		w := (&Cut{Fn: f, StartBlocks: []*ssa.BasicBlock{okBlock}, Target: func(in ssa.Instruction) bool {
+			return in == ssa.Instruction(ta) || isReturn(in)
+		}, Barrier: isAppend}).Run()
+		c.Check(w == nil, R, "pair:every CRYPTO frame of a planned datagram is registered", c.P.InstrPos(ta),
+			"a CRYPTO frame that goes on the wire in a planned datagram but is not handed to the Initial retransmission handler is never resent when that datagram is lost (or after a Retry): the handshake then stalls")
+	}
+}
+
+// ---- C11.5–C11.7 ----
+
+const utlsPkg = "github.com/refraction-networking/utls"
+
+// c11SetReadOnly: the suppress set is not modified while the parameter list is filtered (idempotence, duplicates).
+func c11SetReadOnly(c *Ctx) {
+	const R = "C11.5"
+	f := c.fn("", "", "SuppressQUICTransportParameters")
+	idM := c.obj(utlsPkg, "TransportParameter", "ID")
+	ids := findInstrs(f, CallsTo(idM))
+	c.Floor(R, "ID() calls in SuppressQUICTransportParameters", len(ids), 1)
+	bad := ""
+	n := 0
+	eachInstr(f, func(in ssa.Instruction) {
+		isMod := false
+		switch x := in.(type) {
+		case *ssa.MapUpdate:
+			isMod = true
+		case *ssa.Call:
+			if b := builtinName(&x.Call); b == "delete" || b == "clear" {
+				isMod = true
+			}
+		}
+		if !isMod {
+			return
+		}
+		n++
+		for _, idc := range ids {
+			if instrReaches(idc, in) {
+				bad = c.P.InstrPos(in)
+			}
+		}
+	})
+	c.Floor(R, "modifications of the suppress set (construction)", n, 1)
+	c.Check(bad == "", R, "frozen:the suppress set is not modified while filtering", c.P.Pos(f.Pos()),
+		"every occurrence of a listed identifier is removed and a second application removes nothing more (idempotent): a set that shrinks while filtering lets duplicates through"+map[bool]string{true: "", false: " — modified at " + bad}[bad == ""])
+}
+
+// c11Shuffle: the permutation is drawn by math/rand's Shuffle over the whole list with a swap of exactly the two
+// indexed elements, or by a Fisher–Yates loop drawing j from [0, i].
+func c11Shuffle(c *Ctx) {
+	const R = "C11.6"
+	f := c.fn("", "", "ShuffleQUICTransportParameters")
+	tpF := c.fld(utlsPkg, "QUICTransportParametersExtension", "TransportParameters")
+	ok, how := false, "no recognised uniform shuffle"
+	eachInstr(f, func(in ssa.Instruction) {
+		cl, isCall := in.(*ssa.Call)
+		if !isCall {
+			return
+		}
+		o := calleeObj(&cl.Call)
+		if o == nil || o.Pkg() == nil {
+			return
+		}
+		pk := o.Pkg().Path()
+		if (pk == "math/rand" || pk == "math/rand/v2") && o.Name() == "Shuffle" {
+			args := cl.Call.Args
+			if sig := o.Type().(*types.Signature); sig.Recv() != nil {
+				args = args[1:]
+			}
+			if len(args) == 2 && LenOf(Load(tpF))(args[0]) {
+				// the swap closure swaps elements i and j of the same slice
+				for _, g := range funcsOfValue(args[1]) {
+					stores := 0
+					eachInstr(g, func(x ssa.Instruction) {
+						if st, isSt := x.(*ssa.Store); isSt {
+							if ia, isIA := st.Addr.(*ssa.IndexAddr); isIA && loadsPath(ia.X, tpF) {
+								if _, isParam := stripConv(ia.Index).(*ssa.Parameter); isParam {
+									stores++
+								}
+							}
+						}
+					})
+					if stores == 2 {
+						ok, how = true, pk+".Shuffle(len(TransportParameters), swap of elements i and j)"
+					}
+				}
+			}
+		}
+		if (pk == "math/rand" || pk == "math/rand/v2") && (o.Name() == "Intn" || o.Name() == "IntN") {
+			args := cl.Call.Args
+			if sig := o.Type().(*types.Signature); sig.Recv() != nil {
+				args = args[1:]
+			}
+			// Fisher–Yates: j := Intn(i+1) with i the loop index
+			if len(args) == 1 {
+				if b, isB := stripConv(args[0]).(*ssa.BinOp); isB && b.Op == token.ADD && ConstI(1)(b.Y) {
+					if _, isPhi := stripConv(b.X).(*ssa.Phi); isPhi {
+						ok, how = true, "Fisher–Yates with j drawn from [0, i]"
+					}
+				} else {
+					how = "hand-written shuffle draws j from [0, i) — Sattolo's algorithm reaches cyclic permutations only"
+				}
+			}
+		}
+	})
+	c.Check(ok, R, "uniform:ShuffleQUICTransportParameters draws a uniform permutation of the whole list", c.P.Pos(f.Pos()), how)
+}
+
+// c11NoEarlyMarshal: nothing in the module calls the caching Len/Read of the spec's transport-parameter extension.
+func c11NoEarlyMarshal(c *Ctx) {
+	const R = "C11.7"
+	total := 0
+	for _, m := range []string{"Len", "Read"} {
+		o := c.obj(utlsPkg, "QUICTransportParametersExtension", m)
+		sites := c.P.CallSites(o)
+		var in []string
+		for _, s := range sites {
+			if InRepo(funcPkgPath(s.Fn)) && s.Kind != "invoke" {
+				in = append(in, funcName(s.Fn)+" at "+c.P.InstrPos(s.Instr))
+			}
+		}
+		total += len(in)
+		c.Check(len(in) == 0, R, "who-may-call:QUICTransportParametersExtension."+m+" is left to uTLS", "-",
+			fmt.Sprintf("the first %s() marshals and caches the extension: called from this module before the dial's suppression / shuffle / connection-ID fill-in, the wire carries the stale bytes; callers in the module: %v", m, in))
+	}
+	// positive control: the anchors resolve and uTLS itself uses them
+	lenM := c.obj(utlsPkg, "QUICTransportParametersExtension", "Len")
+	c.Check(lenM != nil, R, "anchor:uTLS QUICTransportParametersExtension.Len resolves", "-", "expected-zero rule: the method object is found in the type-checked program")
+	_ = total
+}
